@@ -23,6 +23,7 @@ import (
 	"errors"
 	"fmt"
 	"regexp"
+	"sort"
 	"strconv"
 	"strings"
 	"time"
@@ -390,8 +391,16 @@ func GetUniqueTraceIds(pipeSearchResponseOuter *segstructs.PipeSearchResponseOut
 		endIndex = totalTracesIds
 	}
 
+	// The buckets come in no particular order and the order can differ from one request to the next:
+	// sort them by trace id so that the requests for the different pages slice the same sequence.
+	buckets := make([]*segstructs.BucketHolder, len(pipeSearchResponseOuter.MeasureResults))
+	copy(buckets, pipeSearchResponseOuter.MeasureResults)
+	sort.SliceStable(buckets, func(i, j int) bool {
+		return strings.Join(buckets[i].GroupByValues, ",") < strings.Join(buckets[j].GroupByValues, ",")
+	})
+
 	traceIds := make([]string, 0)
-	for _, bucket := range pipeSearchResponseOuter.MeasureResults[(page-1)*TRACE_PAGE_LIMIT : endIndex] {
+	for _, bucket := range buckets[(page-1)*TRACE_PAGE_LIMIT : endIndex] {
 		if len(bucket.GroupByValues) == 1 {
 			traceIds = append(traceIds, bucket.GroupByValues[0])
 		}
